@@ -308,6 +308,15 @@ theorem c16_silent_child_times_out {α : Type} (written : List (Nat × α)) (i :
     simpa using h l hl
   simp [this]
 
+/-- **The negotiated version and what the reader is busy with do not matter**: whatever protocol version the client
+settled on and whether or not its reader is in the middle of answering a batch to a child that does not read, leaving
+the context is the same bounded, reaping exit. -/
+theorem c16_client_settings_irrelevant (s s' : ClientSettings) (d : Design) (os : OS) (p : ExitPath) (c : ChildSpec)
+    (l : Load) : leaveWith s d os p c l = leaveWith s' d os p c l := rfl
+
+example : leaveWith ⟨some "2025-06-18", true⟩ Design.sound ⟨5, true⟩ .normal (childSpec .flood .before) ⟨640000, 131072⟩
+    = leave Design.sound ⟨5, true⟩ .normal (childSpec .flood .before) ⟨640000, 131072⟩ := rfl
+
 /-- **Concurrent clients do not answer for one another.**  With several clients alive at once, what client `k`'s
 pending request returns was written by client `k`'s own child under that id, and it does not change when the OTHER
 connections carry different traffic (the same request id included). -/
